@@ -374,6 +374,57 @@ def streams(ck: Check) -> None:
         gid[0] += 1
         decoded("random-decoded", impl, 3)
         inspace("inspace", impl, ctx[-1]["rows"], 2)
+    # "floating" layouts: non-overlapping rectangles dropped ANYWHERE in the bins (not gravity-bound, not guillotine):
+    # overhangs, items standing on an overhanging item, gaps under items - feasible packings no decoder produces; every
+    # layout in several row orders (found missing by seeded change C02-skyline-provisional-right)
+    def floating_layout(W, H, k, per_bin):
+        rects = []
+        for b in range(1, k + 1):
+            placed = []
+            want = per_bin if b < k or rng.random() < 0.6 else rng.randint(1, per_bin)
+            for _ in range(60):
+                if len(placed) >= want:
+                    break
+                w, h = rng.randint(1, max(1, W // 2 + 1)), rng.randint(1, max(1, H // 3 + 1))
+                l, bt = rng.randint(0, W - w), rng.randint(0, H - h)
+                if rng.random() < 0.5 and placed:       # stand on top of an earlier one, shifted sideways (overhang)
+                    p = rng.choice(placed)
+                    bt = p[3]
+                    l = max(0, min(W - w, p[0] + rng.randint(-w + 1, p[2] - p[0] - 1) if p[2] - p[0] > 0 else p[0]))
+                    if bt + h > H:
+                        continue
+                if all(l + w <= q0[0] or q0[2] <= l or bt + h <= q0[1] or q0[3] <= bt for q0 in placed):
+                    placed.append((l, bt, l + w, bt + h))
+            rects += [(b,) + r for r in placed]
+        types: dict = {}
+        rows = []
+        for (b, l, bt, r, t) in rects:
+            key = (r - l, t - bt)
+            alt = (t - bt, r - l)
+            if key not in types and alt in types:
+                key = alt
+            types.setdefault(key, [len(types) + 1, 0])
+            types[key][1] += 1
+            rows.append([types[key][0], b, l, bt, r, t])
+        items = [[w, h, c] for (w, h), (_, c) in sorted(types.items(), key=lambda kv_: kv_[1][0])]
+        return items, rows
+
+    for _ in range(60 if q else 4000):
+        W, H = rng.randint(4, 14), rng.randint(4, 14)
+        k = rng.choice([1, 1, 2, 3])
+        items, rows = floating_layout(W, H, k, rng.randint(3, 8))
+        if len({r[1] for r in rows}) != k:
+            continue
+        try:
+            impl = Impl(W, H, items)
+        except (ValueError, TypeError):
+            ck.count("ctor_err")
+            continue
+        gid[0] += 1
+        for _ in range(6 if q else 10):
+            sh = [list(r) for r in rows]
+            rng.shuffle(sh)
+            add("floating", impl, sh, k, True)
     # shipped instances through both decoders
     names = list(Instance.list_resources())
     for nm in rng.sample(names, 6 if q else 250):
